@@ -11,7 +11,10 @@
 
    A trace line is a record [k, c, cls, wf, st, pr, sc, a, b]; c is the
    connection (1..3; 0 = could not be attributed):
-     k="conn"   the harness opened connection c
+     k="conn"   the harness opened connection c (a = 1: its transport lingers: after
+                the component's close(sock) reads are still delivered until the
+                transport fires disconnect(sock), as circuits.net.sockets.Server
+                does while its write buffer drains)
      k="in"     the harness delivers a message on c (one read event):
                 cls = input class, a = number of bytes,
                 wf = "good"     an unmodified well-formed request, complete
@@ -19,7 +22,10 @@
                                 oversized or not canonical (nothing is claimed
                                 about how it must be answered)
                      "mal"      violates the grammar / is not HTTP at all
-                     "partial"  a proper prefix of a well-formed request
+                     "partial"  a proper prefix of a well-formed request or of a
+                                TLS / SSLv2 client hello, delivered where a new
+                                message starts: the only outcomes are to wait or
+                                to close
                 cls = "Rest" delivers the remainder after a "partial" one.
                 A message delivered while the previous one on c has got neither
                 a dispatch nor a rejection nor a response is a continuation of
@@ -98,6 +104,11 @@ Fail(P, ln) ==
          IF S.peer THEN ""            \* written to a peer that is gone: nobody sees it
          ELSE IF S.ph \in {"none", "idle"} THEN "C14.two_responses"   \* a response to no message at all
          ELSE IF S.nresp >= 1 THEN "C14.two_responses"
+         ELSE IF S.wf = "partial" THEN "C14.two_responses"
+              \* all that has arrived since the last answer is a proper prefix of a message
+              \* (neither complete nor malformed): nothing is there to be answered yet, the
+              \* response is one more than there are messages (typically the previous,
+              \* already answered message answered again)
          ELSE IF ln.pr # "ok" THEN "C14.invalid_response"
          ELSE IF S.ph \in {"rej", "recv"} /\ S.wf = "mal" /\ ln.st < 300 THEN "C14.invalid_response"
          ELSE ""
